@@ -889,6 +889,29 @@ def search(res, tier, boost=False):
                                        history='linform_vector on %s against one cache directory; loads replaced by a stand-in' %
                                                [v[0] for v in variants]))
                     break
+        # the pool path of linform_vector on machines with few cores (mp.cpu_count() = 2): N on both sides of the chunking
+        # threshold 8 * cpu and with a partial last chunk; loads replaced by the stand-in as above
+        import multiprocessing as _mp
+        with contextlib.redirect_stdout(io.StringIO()):
+            op_p = InitialOperator(bdr_mesh=mesh_b, u0=lambda xy: 1 + xy[0], initial_mesh=UnitSquareBoundaryRefined)
+        op_p.linform = stand_in
+        for n_req in (5, 16, 17, 18, 19, 35, 67):
+            lst = base[:n_req]
+            old_cc = _mp.cpu_count
+            _mp.cpu_count = lambda: 2
+            try:
+                with contextlib.redirect_stdout(io.StringIO()):
+                    got = np.asarray(op_p.linform_vector(elems=lst, use_mp=True)).reshape(-1)
+            finally:
+                _mp.cpu_count = old_cc
+            want = np.array([stand_in(e)[0] for e in lst])
+            res.count(('pool-few-cores', n_req), True)
+            if got.shape != want.shape or not np.array_equal(got, want):
+                res.violation('C08:vector-not-own-loads:pool-path-few-cores',
+                              dict(n=n_req, cpu_count=2, chunk=n_req // 16 + 1,
+                                   wrong_entries=[int(i) for i in np.nonzero(got != want)[0][:8]] if got.shape == want.shape else 'shape',
+                                   history='linform_vector(elems[:%d], use_mp=True) with mp.cpu_count() = 2; loads replaced by a stand-in' % n_req))
+                break
     except AssertionError as exc:
         res.notes['cache_large_list_skipped'] = repr(exc)
     finally:
